@@ -7,6 +7,9 @@ import (
 	"sync/atomic"
 )
 
+// OnPanic, if set, is deferred in every worker goroutine of Strings.
+var OnPanic func()
+
 // Count returns the number of strings over an alphabet of k atoms with 0..maxLen atoms.
 func Count(k, maxLen int) int64 {
 	var total, p int64 = 0, 1
@@ -47,6 +50,9 @@ func Strings(atoms []string, maxLen, workers int, newWorker func(w int) (visit f
 		wg.Add(1)
 		go func(w int) {
 			defer wg.Done()
+			if OnPanic != nil {
+				defer OnPanic()
+			}
 			visit, done := newWorker(w)
 			shallowOnce.Do(func() {
 				// nodes above the split level
